@@ -84,7 +84,7 @@ def gen_hierarchy(rng, depth):
             pp = dict(rng.choice([p for p in specs[names[k - 1]]["own"] if not p["required"]]))
             pp["default"], pp["required"] = repr(val_for(pp["ann"])), False
             own = [p for p in own if p["name"] != pp["name"]] + [pp]
-        kind = rng.choice(["super", "super", "super-hard", "noinit", "func", "method", "attr", "pop", "get", "cond", "nokwargs"]) if k > 0 else rng.choice(["root", "root", "func", "pop", "get", "attr", "cond"])
+        kind = rng.choice(["super", "super", "super-hard", "noinit", "func", "method", "attr", "pop", "get", "cond", "cond-class", "cond-param", "nokwargs"]) if k > 0 else rng.choice(["root", "root", "func", "pop", "get", "attr", "cond"])
         if k == depth - 1 and kind == "noinit" and rng.random() < 0.5:
             kind = "super"
         if pending and kind not in ("super", "super-hard", "pop", "noinit"):
@@ -138,8 +138,12 @@ def gen_hierarchy(rng, depth):
         elif kind == "attr":
             f = new_func(f"{k}a")
             body.append("self._kw = kwargs")
-            cls_extra += f"    def run(self):\n        return {f}(**self._kw)\n"
-            sp["forwards"].append(("func", f, {}))
+            hard = {}
+            if rng.random() < 0.4:
+                hp = rng.choice(funcs[f])
+                hard[hp["name"]] = repr(val_for(hp["ann"]))
+            cls_extra += f"    def run(self):\n        return {f}(" + "".join(f"{n}={v}, " for n, v in hard.items()) + "**self._kw)\n"
+            sp["forwards"].append(("func", f, hard))
             if k > 0:
                 body.append("super().__init__()")
         elif kind == "cond":
@@ -149,6 +153,37 @@ def gen_hierarchy(rng, depth):
             sp["forwards"].append(("func", fa if flag == "FLAG_ON" else fb, {}))
             if k > 0:
                 body.append("super().__init__()")
+        elif kind == "cond-class":
+            # documented conditional: another class (which itself forwards **kwargs) in one branch, super() in the other
+            oname = f"Other{k}"
+            ops = gen_named(rng, f"o{k}", rng.randrange(1, 3))
+            obase = gen_named(rng, f"ob{k}", 1)
+            pre += f"class {oname}Base:\n    def __init__({sig(obase, 'self', False)}):\n        self.v = ({obase[0]['name']},)\n"
+            pre += f"class {oname}({oname}Base):\n    def __init__({sig(ops, 'self', True)}):\n        super().__init__(**kwargs)\n"
+            funcs[oname] = ops + obase
+            fmod[oname] = modi
+            flag = rng.choice(["FLAG_ON", "FLAG_OFF"])
+            body.append(f"if {flag}:\n            self.o = {oname}(**kwargs)\n            super().__init__()\n        else:\n            super().__init__(**kwargs)")
+            if flag == "FLAG_ON":
+                sp["forwards"].append(("func", oname, {}))
+            else:
+                sp["forwards"].append(("super", {}))
+        elif kind == "cond-param":
+            # the condition is a parameter: both calls are possible, so the parameters of both are offered (conditionally)
+            oname = f"Other{k}"
+            ops = gen_named(rng, f"o{k}", rng.randrange(1, 3))
+            obase = gen_named(rng, f"ob{k}", 1)
+            pre += f"class {oname}Base:\n    def __init__({sig(obase, 'self', False)}):\n        self.v = ({obase[0]['name']},)\n"
+            pre += f"class {oname}({oname}Base):\n    def __init__({sig(ops, 'self', True)}):\n        super().__init__(**kwargs)\n"
+            funcs[oname] = ops + obase
+            fmod[oname] = modi
+            sw = f"sw{k}"
+            own = own + [dict(name=sw, ann="bool", default="False", required=False)]
+            sp["own"] = own
+            sp["switch"] = (sw, [p_["name"] for p_ in ops + obase])
+            body.append(f"if {sw}:\n            self.o = {oname}(**kwargs)\n            super().__init__()\n        else:\n            super().__init__(**kwargs)")
+            sp["forwards"].append(("func", oname, {}))
+            sp["forwards"].append(("super", {}))
         elif kind == "nokwargs":
             body.append("super().__init__()")
         elif kind == "root":
@@ -157,7 +192,7 @@ def gen_hierarchy(rng, depth):
         order.append(cname)
         pending = (pending - set(sp["hard"])) | {p["name"] for p in own if p["required"]}
         bases = ", ".join(parents)
-        text = f"class {cname}({bases}):\n" if bases else f"class {cname}:\n"
+        text = pre + (f"class {cname}({bases}):\n" if bases else f"class {cname}:\n")
         if sp["has_init"]:
             text += f"    def __init__({sig(own, 'self', sp['has_kwargs'])}):\n"
             for p in own:
@@ -171,7 +206,7 @@ def gen_hierarchy(rng, depth):
     # helper functions go to the module of the class using them (all in module 0 except those of C0 when split)
     ftext = {0: "", 1: ""}
     for fname, ps in funcs.items():
-        if "." in fname:
+        if "." in fname or fname.startswith("Other"):
             continue
         ftext[fmod[fname]] += f"def {fname}({sig(ps, None, False)}):\n    return ({', '.join(p['name'] for p in ps)},)\n"
     # multiple inheritance: a diamond on top of the chain
@@ -222,6 +257,44 @@ def expected_params(cls, specs, funcs):
         return out
 
     return from_idx(0)
+
+
+def branch_needs(cls, specs, funcs):
+    """name -> {switch parameter: value} that a call has to pass for the name to be legal (conditions on parameters)"""
+    mro = [c for c in cls.__mro__ if c is not object]
+    needs = {}
+    for i, c in enumerate(mro):
+        sp = specs.get(c.__name__)
+        if not sp or "switch" not in sp:
+            continue
+        sw, other_names = sp["switch"]
+        for n in other_names:
+            needs.setdefault(n, {})[sw] = True
+        # whatever is reached through super() from here needs the switch off
+        sub = type("X", tuple(mro[i + 1 :]) or (object,), {}) if False else None
+        j = i + 1
+        seen = set()
+        while j < len(mro):
+            spj = specs.get(mro[j].__name__)
+            if spj and spj["has_init"]:
+                for p_ in spj["own"]:
+                    seen.add(p_["name"])
+                for fw in spj["forwards"]:
+                    if fw[0] == "func":
+                        seen |= {p_["name"] for p_ in funcs[fw[1]]}
+                    elif fw[0] == "pop":
+                        seen.add(fw[1])
+                if not any(fw[0] == "super" for fw in spj["forwards"]):
+                    break
+            j += 1
+        hard = set()
+        for c2 in mro:
+            for fw in specs.get(c2.__name__, {}).get("forwards", []):
+                if fw[0] in ("super", "func") and isinstance(fw[-1], dict):
+                    hard |= set(fw[-1])
+        for n in seen - hard:
+            needs.setdefault(n, {})[sw] = False
+    return needs
 
 
 def hard_coded(cls, specs):
@@ -279,8 +352,14 @@ def case(ctx, i, rng):
         if hard:
             ctx.count("st.hard_coded_argument")
         # sanity of the generated program + model: the interpreter accepts all expected parameters together
+        needs = branch_needs(cls, specs, funcs)
         allv = {n: val_for(a) for n, (a, d) in exp.items()}
-        oc = call(cls, **allv)
+        for sw_ in {sw_ for nd in needs.values() for sw_ in nd}:
+            allv[sw_] = False
+        together = {n: v for n, v in allv.items() if not any(val for val in needs.get(n, {}).values())}
+        if needs:
+            ctx.count("st.condition_on_a_parameter")
+        oc = call(cls, **together)
         if not oc.accepted:
             ctx.observe("generated-program-or-model-inconsistent (case skipped)", dict(error=oc.brief(), source=w["source"][-500:]))
             ctx.count("cases_skipped_model_disagrees_with_interpreter")
@@ -299,7 +378,7 @@ def case(ctx, i, rng):
         for n in sorted(missing):
             # interpreter confirms: a call with it succeeds
             base = {m: val_for(a) for m, (a, d) in exp.items() if d == "<required>"}
-            oc = call(cls, **{**base, n: allv[n]})
+            oc = call(cls, **{**base, **needs.get(n, {}), n: allv[n]})
             if oc.accepted:
                 ctx.violation("resolver", f"reachable-parameter-not-offered/{_where(n)}/{'two-files' if two_files else 'one-file'}/{'diamond' if leaf == 'Diamond' else 'chain'}", dict(w, parameter=n, offered=sorted(params), expected=sorted(exp), patterns=pat))
                 return
@@ -336,7 +415,7 @@ def case(ctx, i, rng):
         if not oa.accepted:
             ctx.violation("resolver", f"add_class_arguments-raised/{oa.exc_type}", dict(w, outcome=oa.brief()))
             return
-        typed = {n: v for n, v in allv.items() if n in offered and exp[n][0] is not None}
+        typed = {n: v for n, v in allv.items() if n in offered and n in exp and exp[n][0] is not None and not any(needs.get(n, {}).values())}
         op = call(pr.parse_object, {"x": dict(typed)})
         ctx.count("mon.parser_instantiations")
         if not op.accepted:
@@ -344,7 +423,10 @@ def case(ctx, i, rng):
             return
         oi = call(pr.instantiate_classes, op.value)
         if not oi.accepted:
-            ctx.violation("resolver", f"instantiation-with-offered-parameters-failed/{oi.exc_type}", dict(w, given=typed, outcome=oi.brief()))
+            mech = ""
+            if needs and not any(val is False for nd in needs.values() for val in nd.values()):
+                mech = "/condition-on-parameter-with-one-branch-without-parameters"
+            ctx.violation("resolver", f"instantiation-with-offered-parameters-failed/{oi.exc_type}{mech}", dict(w, given=typed, outcome=oi.brief()))
             return
         # a required parameter must be required by the parser too
         reqs = [n for n, (a, d) in exp.items() if d == "<required>"]
